@@ -362,6 +362,40 @@ static void run_acquote(int maxargs, long shard, long nshards) {
     vc_sample("opt 'it\\'s' \"say \\\"x\\\"\" back\\slash  -> argv = [it's][say \"x\"][back\\slash]");
 }
 
+
+/* ---- (iv) object-level behaviour: callback errors, default handler, user data, re-use, missing file ---- */
+static int ud_seen; static char def_log[512];
+static QAC_CB(cb_err) { if (userdata == &ud_seen) ud_seen++; if (data->otype == QAC_OTYPE_OPTION && data->argc > 1 && !strcmp(data->argv[1], "bad")) return strdup("value refused by callback"); return NULL; }
+static QAC_CB(cb_def) { (void)userdata; size_t l = strlen(def_log); snprintf(def_log + l, sizeof def_log - l, "%d:%s/%d;", data->otype, data->argv[0], data->argc); return NULL; }
+static void run_acobject(void) {
+    const char *docs[] = {"x ok\nx bad\nx never\n", "\n# c\n<Dir a>\nx bad\n</Dir>\n", "x ok\nu 1 2\n<V q>\nw\n</V>\nx fine\n"};
+    for (int di = 0; di < 3; di++) for (int reuse = 0; reuse < 2; reuse++) {
+        char key[64]; snprintf(key, sizeof key, "acobject:%d:%d", di, reuse);
+        if (!vc_case("qaconf_parse", key)) continue;
+        n_eval++; n_nontrivial++;
+        qaconf_t *c = qaconf();
+        qaconf_option_t o[] = {{"x", QAC_TAKE1, cb_err, 0, QAC_SECTION_ALL}, {"Dir", QAC_TAKE1, cb_err, 2, QAC_SECTION_ROOT}, QAC_OPTION_END};
+        c->addoptions(c, o); c->setuserdata(c, &ud_seen); ud_seen = 0; def_log[0] = 0;
+        if (di == 2) c->setdefhandler(c, cb_def);
+        if (reuse) {   /* a first parse of a missing file must fail with a message and leave the object usable */
+            int r0 = c->parse(c, "/nonexistent/dir/none.conf", 0);
+            if (r0 != -1 || !c->errmsg(c) || !strstr(c->errmsg(c), "/nonexistent/dir/none.conf")) vc_viol("apache:missing-file", "%s: parse of a missing file returned %d, message '%s'", key, r0, c->errmsg(c) ? c->errmsg(c) : "(null)");
+            c->reseterror(c);
+            if (c->errmsg(c) != NULL) vc_viol("apache:reseterror", "%s: error message survives reseterror()", key);
+        }
+        wr(docs[di]);
+        int r = c->parse(c, mpath, 0);
+        const char *e = c->errmsg(c);
+        if (di == 0) { if (r != -1 || !e || !strstr(e, ":2 value refused by callback") || ud_seen != 2) vc_viol("apache:callback-error", "%s: returned %d, message '%s', callbacks %d (expected -1, line 2, 2 callbacks)", key, r, e ? e : "(null)", ud_seen); }
+        else if (di == 1) { if (r != -1 || !e || !strstr(e, ":4 value refused by callback") || ud_seen != 2) vc_viol("apache:callback-error", "%s: returned %d, message '%s', callbacks %d (expected -1, line 4, 2 callbacks)", key, r, e ? e : "(null)", ud_seen); }
+        else { if (r != 6 || e || strcmp(def_log, "0:u/3;1:V/2;0:w/1;2:V/1;") || ud_seen != 2) vc_viol("apache:default-handler", "%s: returned %d, message '%s', default handler saw [%s], registered callbacks %d", key, r, e ? e : "-", def_log, ud_seen); }
+        c->free(c);
+        if (vc_asan_check()) vc_viol("asan:qaconf_parse", "%s", key);
+        vc_case_end();
+    }
+    vc_sample("callback returns an error string on line 2 -> -1 with 'path:2 <message>'; default handler receives unregistered directives; parse after a failed parse");
+}
+
 /* ---- (iii) structure space ---- */
 static char got[8192], want[8192];
 static QAC_CB(cbs) {
@@ -489,6 +523,7 @@ static int replay(const char *key) {
     else if (!strncmp(key, "actype:multi", 12)) run_actype(1);
     else if (!strncmp(key, "actype:all", 10)) run_actype(2);
     else if (!strncmp(key, "acquote:", 8)) run_acquote(3, 0, 1);
+    else if (!strncmp(key, "acobject:", 9)) run_acobject();
     else if (!strncmp(key, "acstruct:", 9)) { int f, mi, md; sscanf(key + 9, "%d:%d:%d", &f, &mi, &md); run_acstruct(f, mi, md, 0, 1); }
     return 0;
 }
@@ -501,6 +536,7 @@ static int worker(int argc, char **argv) {
     else if (!strcmp(m, "inilong")) run_inilong();
     else if (!strcmp(m, "actype")) run_actype(atoi(argv[2]));
     else if (!strcmp(m, "acquote")) run_acquote(atoi(argv[2]), atol(argv[3]), atol(argv[4]));
+    else if (!strcmp(m, "acobject")) run_acobject();
     else if (!strcmp(m, "acstruct")) run_acstruct(atoi(argv[2]), atoi(argv[3]), atoi(argv[4]), atol(argv[5]), atol(argv[6]));
     else return 1;
     vc_stat_add("evaluations", n_eval);
